@@ -41,11 +41,11 @@ def builds(tier):
 
 def plan(tier, seed, rng, scale):
     descs = []
-    n = int((48 if tier == 'quick' else 1200) * scale)
+    n = int((160 if tier == 'quick' else 1500) * scale)
     for i in range(n):
         k = rng.choice([9, 15, 21, 31, 33, 41, 63]) if rng.random() < 0.5 else rng.choice(G.ALL_K[2:])
         descs.append({'kind': 'reads', 'k': k, 'rc': rng.random() < 0.7, 'seed': rng.getrandbits(32)})
-    m = int((20 if tier == 'quick' else 500) * scale)
+    m = int((60 if tier == 'quick' else 600) * scale)
     for i in range(m):
         descs.append({'kind': 'grad', 'seed': rng.getrandbits(32), 'suite': i == 0})
     descs.append({'kind': 'cutoff', 'seed': rng.getrandbits(32)})
